@@ -117,6 +117,20 @@ class HoloPyObject(Serializable):
     def __eq__(self, other):
         if hasattr(other, '_dict'):
             # Note, this is possibly a slightly weak form of equality, but well behaved holopy objects are equal if their _dict's are equal
-            return self._dict == other._dict
+            mine, theirs = self._dict, other._dict
+            return mine.keys() == theirs.keys() and all(
+                _same(mine[key], theirs[key]) for key in mine)
         else:
             return False
+
+
+def _same(a, b):
+    if hasattr(a, 'equals') or hasattr(b, 'equals'):
+        # xarray (a == b is an array, and only of the labels both have):
+        # same values, dimensions and coordinates
+        return type(a) is type(b) and bool(a.equals(b))
+    try:
+        return a is b or bool(a == b)
+    except ValueError:
+        # arrays of 2 or more dimensions do not have a single truth value
+        return np.array_equal(a, b)
